@@ -65,6 +65,7 @@ func (w *wrapper) Invoke(ctx context.Context, method string, args any, reply any
 	}
 
 	_, clientServerStream, ss, cs := w.startStream(ctx, method)
+	clientServerStream.singleResponse = true // the reply is good once the call has ended well: trailers come with that
 	go func() {
 		// the handler works under the context of the call, which ends with the call (as over a connection),
 		// not under the caller's, which may never end
